@@ -148,6 +148,7 @@ func (c *Controller) Put(r record.Record) (err error) {
 		return errors.New("storage returned nil record after successful put operation")
 	}
 
+	verifPoint("db.put.stored")
 	c.notifySubscribers(r)
 
 	return nil
